@@ -15,9 +15,11 @@ FIELD_PROPS = {
     "lc1": ["C10", "C04", "C07"], "lc2": ["C10", "C07"], "lc3": ["C10", "C04", "C07"], "lc4": ["C10", "C04", "C07"], "lc5": ["C10", "C06", "C07"],
     "wm6": ["C11", "C04", "C07"], "wm7": ["C11", "C04", "C07"], "osp5": ["C12", "C05", "C07"], "osp6": ["C12", "C05", "C07"], "nsp4": ["C12", "C06", "C07"], "nsp5": ["C12", "C06", "C07"],
     "osp": ["C12", "C05", "C07"], "nsp": ["C12", "C06", "C07"], "osp2": ["C12", "C05", "C07"], "nsp2": ["C12", "C06", "C07"], "osp3": ["C12", "C05", "C07"], "nsp3": ["C12", "C06", "C07"],
+    "pp1": ["C04", "C11", "C02"], "pp2": ["C04", "C11", "C02"], "pp3": ["C05", "C02"], "pp4": ["C06", "C02"],
+    "al1": ["C02", "C03", "C14"], "al2": ["C02", "C03", "C14"], "al3": ["C02", "C03", "C14"], "al4": ["C02", "C03", "C14"],
     "bidi1": ["C09", "C04"], "bidi2": ["C09", "C04"], "bidi3": ["C09", "C04"], "bidi4": ["C09", "C04"], "bidi5": ["C09", "C04"],
 }
-TOOL_FIELDS = {"tiling", "sigexc", "sigascii"}
+TOOL_FIELDS = {"tiling", "sigexc", "sigascii", "sigidp"}
 
 
 def _build(full32, seed):
